@@ -218,6 +218,20 @@ func (k *Kernel) data(r *Request, typ uint16, flags uint16, payload []byte, kind
 func (k *Kernel) Unsolicited(n int, avail int64) {
 	for i := 0; i < n; i++ {
 		k.unsolSeq++
+		if k.unsolSeq%8 == 5 && len(k.Ledger) > 0 {
+			// a sequence-0 datagram that is no audit record at all: an NLMSG_ERROR carrying
+			// EPERM and quoting the header of the request in flight (sequence 0 says
+			// "not a reply", whatever else the datagram looks like)
+			if last := k.Ledger[len(k.Ledger)-1]; last.Seq != 0 && len(last.Wire) >= NlmsgHdrLen {
+				b := make([]byte, NlmsgHdrLen+4+NlmsgHdrLen)
+				hdr(b, uint32(len(b)), NlmsgError, 0, 0, 0)
+				le.PutUint32(b[NlmsgHdrLen:], 0xFFFFFFFF)
+				copy(b[NlmsgHdrLen+4:], last.Wire[:NlmsgHdrLen])
+				k.enqueue(&Datagram{Bytes: b, Req: -1, Kind: DUnsolicited, AvailAt: avail})
+				k.FiredUnsol++
+				continue
+			}
+		}
 		body := []byte("audit(1500000000.000:" + itoa(k.unsolSeq) + "): unsolicited=" + itoa(k.unsolSeq))
 		b := make([]byte, NlmsgHdrLen+len(body))
 		typ := uint16(1100 + (k.unsolSeq*37)%300)
